@@ -10,7 +10,37 @@ TRUST = ("rustc/Kani 0.68/CBMC 6.11/CaDiCaL, z3 4.8.12 (+cvc5 cross-check); std 
          "bounded: sizes/unwindings are listed per query in the evidence file; counterexamples are replayed against "
          "the real build (dev and release) before being reported")
 
+TOK_TECH = ("source-level symbolic execution (syn AST of the real MessageParser/utils/parse_from_block4/to_mt_string -> z3 formula "
+            "with state merging) over a symbolic token list, bounded by N tokens with checked loop unwinding; models replayed against the real parser")
+
 CLAIMED = {
+    "C01": dict(
+        technique=TOK_TECH + "; oracle: serialisation identity + independent layout automaton",
+        text=("For each of the 30 types the solver decides, for every token list up to N fields (tags symbolic, contents "
+              "uninterpreted), that acceptance implies the serialised tag sequence equals the input sequence (no token skipped, "
+              "dropped, reordered or re-tagged) and that every accepted sequence belongs to the independently written layout "
+              "language (unknown tag, duplicate, misplaced, trailing or extra fields are rejected)."),
+        design_ref="DESIGN.md §4 C01"),
+    "C02": dict(
+        technique=TOK_TECH + "; field-level round trips by Kani/CBMC on the compiled field parsers",
+        text=("Message level: token-level identity of parse∘serialise for all token lists up to N fields implies that re-parsing "
+              "the output yields the same slots and the same text; field level: Kani harnesses over symbolic contents."),
+        design_ref="DESIGN.md §4 C02"),
+    "C03": dict(
+        technique=TOK_TECH + "; oracle: Glushkov automaton of an independent layout specification encoded in SMT",
+        text=("For every token list in the documented layout language of a type (all optional subsets, options, repetitions "
+              "within N tokens) with canonical contents, the solver shows the real layout code accepts it and reproduces it."),
+        design_ref="DESIGN.md §4 C03"),
+    "C09": dict(
+        technique=TOK_TECH + "; deletion modelled by a ghost step of the layout automaton, invalid content by one false ok-bit",
+        text=("For every layout-valid list with one mandatory occurrence deleted, the real code rejects with an error naming "
+              "the tag and type; with exactly one invalid content, InvalidFieldFormat carries that tag and content."),
+        design_ref="DESIGN.md §4 C09"),
+    "C14": dict(
+        technique=TOK_TECH + "; option enums' parse_with_variant executed from source, serialiser tags read from to_swift_string",
+        text=("In every message position, for every option letter the detection code can return, the variant built by the "
+              "real parse_with_variant is serialised under the tag that was read, or the field is rejected."),
+        design_ref="DESIGN.md §4 C14"),
     "C11": dict(
         technique="Kani/CBMC bounded model checking of the compiled date/time parsers vs. a reference calendar, all byte values",
         text=("Solver verdict over every byte string of the stated lengths for parse_date_yymmdd / parse_time_hhmm "
